@@ -162,6 +162,7 @@ func threadRun(L *LState) {
 			}
 			if parent := L.Parent; parent != nil {
 				if L.wrapped {
+					L.SetTop(0) // the error may be a registry overflow: make room for its value
 					L.Push(lv)
 					// the thread is dead and control is back in its resumer
 					L.G.CurrentThread = parent
